@@ -58,10 +58,11 @@ type TermTable struct {
 	ufs    map[string]UFDecl // declared uninterpreted functions
 	ufList []string
 	axioms []*Term // codec axiom instances (always asserted)
+	validStr map[int]string // string vars that are valid encodings by construction ("map")
 }
 
 func NewTermTable() *TermTable {
-	return &TermTable{tab: map[string]*Term{}, ufs: map[string]UFDecl{}}
+	return &TermTable{tab: map[string]*Term{}, ufs: map[string]UFDecl{}, validStr: map[int]string{}}
 }
 
 func (tt *TermTable) mk(op string, sort Sort, s string, n uint64, args ...*Term) *Term {
